@@ -252,6 +252,34 @@ def wiring(ck):
                             ck.judge(mine == best and mine > 0, "C04.1", f"{short(m)}->{c.fn.name}:{pname}", site.where,
                                      f"{pname} <- args.{a.attr}", found=f"args.{a.attr} bound to {pname}",
                                      required="the like-named parameter")
+    # functools.partial(<obj>.getInitialAlignment, <leading arguments>): the leading arguments are bound as in a call
+    for m in coord.methods.values():
+        for node in ast.walk(m.node):
+            if not (isinstance(node, ast.Call) and ast.unparse(node.func) in ("partial", "functools.partial") and node.args
+                    and isinstance(node.args[0], ast.Attribute) and node.args[0].attr in table):
+                continue
+            name = node.args[0].attr
+            cands = [f for f in p.nontest_functions() if f.name == name and f.cls is not None and not f.is_lambda]
+            if len(cands) != 1:
+                raise AnalysisError(f"{where(m, node)}: partial over {name}: the method is not unique in the repository")
+            from ..callgraph import bind_args
+            call2 = ast.Call(func=node.args[0], args=list(node.args[1:]), keywords=list(node.keywords))
+            binding, _ = bind_args(cands[0].call_params(), call2)
+            g = binding.get("sequenceGenerator")
+            if g is None:
+                raise AnalysisError(f"{where(m, node)}: sequenceGenerator argument of partial({name}, ...) not bound")
+            judged += 1
+            seen_callees.add(name)
+            want = table[name]
+            ok = isinstance(g, ast.Attribute) and isinstance(g.value, ast.Name) and g.attr == want
+            ck.judge(ok, "C04.1", f"{short(m)}->{name}:generator", where(m, node), f"{name} uses the {want}", found=ast.unparse(g),
+                     required=f"self.{want}")
+            for pname, a in binding.items():
+                if isinstance(a, ast.Attribute) and isinstance(a.value, ast.Attribute) and a.value.attr == "args":
+                    mine = _overlap(a.attr, pname)
+                    best = max(_overlap(a.attr, q.name) for q in cands[0].call_params())
+                    ck.judge(mine == best and mine > 0, "C04.1", f"{short(m)}->{name}:{pname}", where(m, node),
+                             f"{pname} <- args.{a.attr}", found=f"args.{a.attr} bound to {pname}", required="the like-named parameter")
     # (three call sites on the pinned tree - forward, reverse, refine; a shared helper for the two strands leaves two)
     ck.floor("C04.1 generator uses in the coordinator", judged, 2)
     ck.floor("C04.1 passes whose generator is judged (primary, secondary)", len(seen_callees), 2)
